@@ -46,3 +46,24 @@ mod verif_kani_record_ord {
         kani::cover!(expect == Ordering::Equal && a.content_len() != b.content_len());
     }
 }
+
+#[cfg(kani)]
+mod verif_kani_cap_kind {
+    use super::*;
+
+    /// The on-disk / wire tag of a capability kind (namespaces table column, `Capability::raw`): Write = 1, Read = 2, and
+    /// `CapabilityKind::try_from` (num_enum) accepts exactly these two bytes and is the inverse of the cast.
+    /// Complete: loop-free over all 256 byte values.
+    #[kani::proof]
+    fn capability_kind_tags_are_pinned() {
+        assert!(CapabilityKind::Write as u8 == 1);
+        assert!(CapabilityKind::Read as u8 == 2);
+        let b: u8 = kani::any();
+        match CapabilityKind::try_from(b) {
+            Ok(k) => { assert!(b == 1 || b == 2); assert!(k as u8 == b); }
+            Err(_) => { assert!(b != 1 && b != 2); }
+        }
+        kani::cover!(b == 1);
+        kani::cover!(b == 0);
+    }
+}
